@@ -208,6 +208,10 @@ def cmd_check(prop_id, tier, seed, replay_case=None, repo=None, quiet=False):
         extra_env = {}
         for v in getattr(meta, "EXTRA_VARIANTS", []):
             extra_env[f"VERIF_BUILD_{v.upper()}"] = B.build(v, repo)
+        if getattr(meta, "SHIM", False):
+            sd = B.build("shim")
+            extra_env["LD_PRELOAD"] = B.asan_runtime() + ":" + os.path.join(sd, "libtskfail.so")
+            extra_env["LD_LIBRARY_PATH"] = sd + os.pathsep + os.environ.get("LD_LIBRARY_PATH", "")
     except Exception as e:
         print(f"INCONCLUSIVE property={prop_id} build failed: {e}")
         return 3
@@ -234,11 +238,17 @@ def cmd_check(prop_id, tier, seed, replay_case=None, repo=None, quiet=False):
                       "case": c["case"], "detail": c["excerpt"]})
     # hangs are confirmed by an isolated re-run with a 5x budget before they count
     if replay_case is None:
-        confirmed = []
+        confirmed, verdict = [], {}
         for v in viols:
             if v["key"].startswith("hang/"):
-                rc = _confirm_hang(prop_id, tier, seed, v["case"], variant, builddir, repo, case_timeout * 5)
-                if not rc:
+                k = v["key"] + "|" + str((v["case"] or {}).get("name", ""))
+                if k not in verdict:
+                    if len(verdict) >= 4:
+                        verdict[k] = None
+                    else:
+                        verdict[k] = _confirm_hang(prop_id, tier, seed, v["case"], variant, builddir, repo,
+                                                   case_timeout * 3, extra_env)
+                if not verdict[k]:
                     inconclusive.append(f"unconfirmed watchdog firing: {json.dumps(v['case'])[:300]}")
                     continue
             confirmed.append(v)
@@ -322,11 +332,11 @@ def cmd_check(prop_id, tier, seed, replay_case=None, repo=None, quiet=False):
     return 0
 
 
-def _confirm_hang(prop_id, tier, seed, case, variant, builddir, repo, timeout):
+def _confirm_hang(prop_id, tier, seed, case, variant, builddir, repo, timeout, extra_env=None):
     outdir = tempfile.mkdtemp(prefix=f"verif-{prop_id}-hang-")
     try:
         crashes = run_workers(prop_id, tier, seed, variant, builddir, repo, outdir, 10 ** 6, timeout, 1,
-                              replay_case=case)
+                              replay_case=case, extra_env=extra_env)
         return any(c["key"].startswith("hang/") for c in crashes)
     finally:
         shutil.rmtree(outdir, ignore_errors=True)
